@@ -185,8 +185,12 @@ def _verify_alternative(registry, repo, contract, mod, fnode, cnode, names, comb
                 ctx.oblige(pst, False, f"no-exception[{o.exc}]#p{k}", fnode, "raises", meta={"exc": o.exc, "trace": list(fin.trace)})
         else:
             raise Outside(f"{o.kind} outside a loop")
-    # vacuity canaries: the assumptions at the end of every explored path must be satisfiable
-    for k, o in enumerate(outs):
+    # vacuity canaries: some normally-returning path must have satisfiable assumptions (a function whose every
+    # return path is contradictory would make all its postconditions vacuously true)
+    alive = 0
+    dead = []
+    normal = [(k, o) for k, o in enumerate(outs) if o.kind in ("return", "normal")]
+    for k, o in normal:
         can = z3.Tactic("default").solver()
         can.set("timeout", 1500)
         for h in o.st.hyps():
@@ -194,7 +198,13 @@ def _verify_alternative(registry, repo, contract, mod, fnode, cnode, names, comb
         r = can.check()
         rep.vacuity.setdefault("canaries", []).append(str(r))
         if r == z3.unsat:
-            rep.vacuity["dead_paths"].append(f"{contract.qualname}{tag}#p{k}: {' > '.join(o.st.trace[-4:])}")
+            dead.append(f"{contract.qualname}{tag}#p{k}: {' > '.join(o.st.trace[-4:])}")
+        else:
+            alive += 1
+    if normal and alive == 0:
+        rep.vacuity["dead_paths"].extend(dead)
+    elif dead:
+        rep.notes.append(f"infeasible return paths not pruned during execution: {dead}")
     rep.obligations.extend(ctx.obligations)
     rep.trivial += ctx.trivial
     rep.notes.extend(ctx.notes)
